@@ -473,6 +473,7 @@ def run_first_order_unit(unit):
             cfg.update(op=op, dt=dt, tau=tau, k=k)
             before = res.outcomes['checked']
             nv = len(res.viols)
+            snap = (res.worst, res.worst_where)
             try:
                 run_first_order_case(res, cfg)
             except Exception as e:  # a crash inside the code under test on a legal input is a finding, not a checker crash
@@ -480,6 +481,8 @@ def run_first_order_unit(unit):
 
                 cfg.setdefault('_seen', set())
                 flag(res, cfg, 'exception', {'error': f'{type(e).__name__}: {str(e)[:300]}', 'trace': traceback.format_exc()[-900:]})
+            if len(res.viols) > nv:
+                res.worst, res.worst_where = snap
             if first and res.outcomes['checked'] == before and len(res.viols) == nv:
                 # construction-level outcome (rejected / unavailable / degenerate): it does not depend on operator, dt, tau
                 break
@@ -610,6 +613,7 @@ def run_generic_unit(unit):
     runner = CASE_RUNNERS[unit['family']]
     for cfg in unit['cases']:
         cfg = dict(cfg)
+        snap = (res.worst, res.worst_where, len(res.viols))
         try:
             runner(res, cfg)
         except Exception as e:
@@ -617,6 +621,9 @@ def run_generic_unit(unit):
 
             cfg.setdefault('_seen', set())
             flag(res, cfg, 'exception', {'error': f'{type(e).__name__}: {str(e)[:300]}', 'trace': traceback.format_exc()[-900:]})
+        if len(res.viols) > snap[2]:
+            # headroom is a statement about the cases that agree with the oracle; a failing case does not feed it
+            res.worst, res.worst_where = snap[0], snap[1]
     return res
 
 
@@ -1202,7 +1209,7 @@ def run_rkn_case(res, cfg):
             cmp(res, cfg, 'update_nodes.u0_untouched', np.concatenate([Xn[0], Vn[0]]), np.concatenate([x0, v0]), 0.0, label)
             # stage by stage, first deviation only (later stages inherit it): force f_i = K X_i + g(t0 + c_i dt)
             Fn = np.array([H.rd(L.f[m]) for m in range(1, M)])
-            fs_ = float(np.max(np.abs(ref['F']), initial=0.0)) + ref['scale_x'] * float(np.max(np.sum(np.abs(K), axis=1)))
+            fs_ = ref['scale_f']
             okk = True
             for i in range(M):
                 okk = okk and cmp(res, cfg, 'update_nodes.stage_values', Xn[1 + i], ref['X'][i], ref['scale_x'], f'{label}/stage{i + 1}/pos')
